@@ -79,6 +79,11 @@ func configs(thorough bool) []cfgCase {
 
 // plaintextPolicy checks one decoded record against the "never unprotected" rules.
 func plaintextPolicy(v13 bool, r world.Decoded) string {
+	if v13 && !r.Unified && r.Epoch != 0 {
+		// DTLS 1.3 protects every record of epoch >= 1 behind a unified header; a record in DTLSPlaintext
+		// framing that names such an epoch carries its content in clear
+		return fmt.Sprintf("DTLS 1.3 session: record in plaintext framing (type %d) at epoch %d emitted by %s (datagram #%d): handshake / application content after ServerHello left unprotected", r.OuterType, r.Epoch, r.D.Src, r.D.ID)
+	}
 	if !r.Plain {
 		return ""
 	}
@@ -446,6 +451,98 @@ func dedup(in []string) []string {
 	return out
 }
 
+// c07Loss: the handshake itself under a small MTU and one delivery fault (a fragment of a multi-record
+// flight lost, delayed or duplicated, so that selective or timer retransmissions happen), then one
+// Write(marker) in each direction; the same wire oracles: raw search for the marker, for the Finished
+// bodies and for windows of every protected DTLS 1.3 handshake body, and the record-level policy.
+func c07Loss(t *testing.T, p *world.PKI, cc cfgCase, mtu int, m world.Mask, seed uint64) run.Outcome {
+	var o run.Outcome
+	world.Run(t, seed, func(w *world.World) {
+		vv := cc.v
+		vv.C.MTU, vv.S.MTU = mtu, mtu
+		pr, err := vv.Setup(w, p)
+		if err != nil {
+			o.Skip = true
+			return
+		}
+		n := world.NewNet(w, world.ClientAddr, m)
+		w.CIDLenHint = pr.CIDLenFor
+		if err := n.Pump(40*time.Second, pr.BothDone); err != nil || !pr.BothOK() {
+			// liveness under faults is C02's business; a handshake that does not complete is still audited
+			// for what it put on the wire, provided the secrets are available
+			n.ClearFaults()
+			n.Flush()
+		}
+		n.ClearFaults()
+		n.Flush()
+		if !pr.BothOK() {
+			o.Skip = true
+			o.Class = "loss:handshake-incomplete"
+			pr.CloseAll()
+			return
+		}
+		for _, e := range []*world.Endpoint{pr.C, pr.S} {
+			e := e
+			wr := w.Go(e.Name+".Write", func(*world.Op) error { _, er := e.Conn.Write(marker); return er })
+			_ = n.Pump(3*time.Second, wr.Done)
+		}
+		_ = n.Pump(1500*time.Millisecond, func() bool { return false }) // post-handshake retransmissions, if any
+		n.Flush()
+		dec := pr.NewDecoder()
+		recs := dec.Poll()
+		o.NonTrivial = n.Faulted > 0 || len(m) == 0
+		var viol []string
+		finished := map[string][]byte{}
+		var windows [][]byte
+		for _, r := range recs {
+			if r.OK && !r.Plain && r.Type == world.CTHandshake && len(r.Payload) > 12 {
+				if r.Payload[0] == 20 {
+					finished[fmt.Sprintf("Finished of %s", r.D.Src)] = r.Payload[12:]
+				} else if cc.v.V13 && len(r.Payload) >= 44 {
+					windows = append(windows, r.Payload[12:44])
+				}
+			}
+		}
+		for _, d := range w.Emitted() {
+			if d.ID < pr.FirstID {
+				continue
+			}
+			if bytes.Contains(d.Data, marker[:24]) {
+				viol = append(viol, fmt.Sprintf("datagram #%d from %s contains the application payload in clear", d.ID, d.Src))
+			}
+			for name, body := range finished {
+				if len(body) >= 12 && bytes.Contains(d.Data, body) {
+					viol = append(viol, fmt.Sprintf("datagram #%d contains the plaintext %s body", d.ID, name))
+				}
+			}
+			for _, win := range windows {
+				if bytes.Contains(d.Data, win) {
+					viol = append(viol, fmt.Sprintf("datagram #%d from %s contains plaintext bytes of a DTLS 1.3 handshake message sent after ServerHello", d.ID, d.Src))
+					break
+				}
+			}
+			if len(viol) > 4 {
+				break
+			}
+		}
+		seen := map[string]bool{}
+		for _, r := range recs {
+			if mm := plaintextPolicy(cc.v.V13, r); mm != "" && !seen[mm] && len(viol) < 8 {
+				seen[mm] = true
+				viol = append(viol, mm)
+			}
+		}
+		o.Class = fmt.Sprintf("loss mtu=%d fault-fired=%v", mtu, n.Faulted > 0)
+		o.Counters = map[string]int{"records_decoded": len(recs), "loss_protected_13_handshake_windows": len(windows)}
+		if len(viol) > 0 {
+			o.Violation = fmt.Sprintf("config=%s mtu=%d mask=%s: %s", cc.name, mtu, m, strings.Join(viol, "; "))
+		}
+		o.Sample = map[string]any{"config": cc.name, "mtu": mtu, "mask": m.String(), "class": o.Class}
+		pr.CloseAll()
+	})
+	return o
+}
+
 func TestC07(t *testing.T) {
 	env := run.GetEnv()
 	p := world.GetPKI(t)
@@ -465,5 +562,20 @@ func TestC07(t *testing.T) {
 			}
 		}
 	}
-	run.Main(t, "C07", cases, map[string]any{"configs": len(configs(env.Thorough())), "positions": 13, "follow_ups": "none, second Write, Close, injected unprotected application data"})
+	lossMTUs := map[string][]int{"13-aes128gcm/cid0": {100, 300}, "12-gcm128/cid0": {100}, "12-clientauth/cid0": {200}}
+	lossN, lossK := 14, 1
+	if env.Thorough() {
+		lossMTUs = map[string][]int{"13-aes128gcm/cid0": {100, 200, 300}, "13-aes128gcm/cid4": {200}, "13-chacha/cid0": {150}, "12-gcm128/cid0": {100}, "12-cbc/cid4": {150}, "12-clientauth/cid0": {100, 200}}
+		lossN = 24
+	}
+	lossMasks := checks.EnumMasks(lossN, lossK, []world.Action{world.ActDrop, world.ActHold3, world.ActDup})
+	for _, cc := range configs(env.Thorough()) {
+		for _, mtu := range lossMTUs[cc.name] {
+			for _, m := range lossMasks {
+				cc, mtu, m := cc, mtu, m
+				cases = append(cases, run.Case{ID: fmt.Sprintf("%s/loss/mtu%d/%s", cc.name, mtu, m), Run: func(t *testing.T) run.Outcome { return c07Loss(t, p, cc, mtu, m, env.Seed+1) }})
+			}
+		}
+	}
+	run.Main(t, "C07", cases, map[string]any{"loss_family": fmt.Sprintf("small-MTU handshakes x every mask with <=%d fault over the first %d datagrams per direction (drop, hold3, dup)", lossK, lossN), "configs": len(configs(env.Thorough())), "positions": 13, "follow_ups": "none, second Write, Close, injected unprotected application data"})
 }
